@@ -11,7 +11,11 @@ Inductive case :=
 | CIso (expd : list (list Z)) (conc : list (list Z)) (h0 h1 : list Z)
 (* two states use a table after it was sent through a channel (known finding C13-1): was a data
    race on the table observed? *)
-| CShare (raced : bool).
+| CShare (raced : bool)
+(* high-volume run without a log (counters kept by the harness): values sent, values received,
+   values received more than once, closure reports before any close was invoked, receipts that
+   were out of order for their sender as seen by one receiver *)
+| CStress (sent recvd dups early disorder : Z).
 
 Definition zlist_eqb (a b : list Z) : bool := list_eqb Z.eqb a b.
 
@@ -23,6 +27,7 @@ Definition check_impl (c : case) : bool :=
   (* channels pass tables by reference (the filter only refuses what payload_filter lists): the
      model of the code allows either outcome of the schedule-dependent race *)
   | CShare _ => true
+  | CStress sent recvd dups early disorder => (recvd =? sent) && (dups =? 0) && (early =? 0) && (disorder =? 0)
   end.
 
 (* spec: the clauses of the property evaluated on the observed log *)
@@ -31,4 +36,6 @@ Definition check_spec (c : case) : bool :=
   | CHist caps log => spec_log caps log
   | CIso e conc h0 h1 => list_eqb zlist_eqb e conc && zlist_eqb h0 h1
   | CShare raced => negb raced      (* no data race on interpreter-owned memory *)
+  (* exactly once (all channels closed and drained at the end), closure only after a close, per-sender order *)
+  | CStress sent recvd dups early disorder => (recvd =? sent) && (dups =? 0) && (early =? 0) && (disorder =? 0)
   end.
